@@ -114,6 +114,20 @@ namespace
             comps.push_back(comp);
             remaining -= cl;
         }
+        // one path in five: the program's file name reappears further up - an ancestor directory begins with it or is
+        // named exactly like it (python3.9/bin/python3, app/libexec/app); total length and depth stay as drawn
+        if (comps.size() >= 2 && r.chance(1, 5))
+        {
+            size_t a = static_cast<size_t>(r.below(comps.size() - 1));
+            std::string& last = comps.back();
+            std::string& anc = comps[a];
+            if (anc.size() >= last.size()) last = anc.substr(0, last.size());
+            else anc = last.substr(0, anc.size());
+            if (last == "." || last == "..") last[0] = '_';
+            if (anc == "." || anc == "..") anc[0] = '_';
+            out.clear();
+            for (const std::string& c : comps) { out.push_back('/'); out += c; }
+        }
         return out;
     }
 
